@@ -39,6 +39,18 @@ type rewrite struct {
 	// GoStmt: rewrite `go f(args)` into `<GoFunc>(func(){ f(args) })` with
 	// arguments evaluated eagerly.
 	GoStmt string `json:"go_stmt,omitempty"`
+	// RangeMap: AST-level rewrite of `for k, v := range <Expr> {body}` into
+	// `for _, k := range <Func>(<Arg>) { v := <Expr>[k]; body }` so that the
+	// harness owns the iteration order of a map (robust against edits of the
+	// loop body, unlike a literal replace). PerFunc overrides Func inside the
+	// named function/method.
+	RangeMap []struct {
+		Expr    string            `json:"expr"`
+		Func    string            `json:"func"`
+		Arg     string            `json:"arg"`
+		PerFunc map[string]string `json:"per_func,omitempty"`
+		Min     int               `json:"min,omitempty"` // at least this many loops must be rewritten (default 1)
+	} `json:"range_map,omitempty"`
 	// Replace: literal text substitutions applied after the AST pass, each must
 	// match exactly once (a miss is a hard error so an upstream edit is noticed).
 	Replace []struct {
@@ -183,6 +195,16 @@ func rewriteFile(file string, rw rewrite) ([]byte, error) {
 	if rw.GoStmt != "" {
 		rewriteGo(f, rw.GoStmt)
 	}
+	for _, rm := range rw.RangeMap {
+		n := rewriteRangeMap(fset, f, rm.Expr, rm.Func, rm.Arg, rm.PerFunc)
+		min := rm.Min
+		if min <= 0 {
+			min = 1
+		}
+		if n < min {
+			return nil, fmt.Errorf("range_map %q: %d loops rewritten, want >= %d", rm.Expr, n, min)
+		}
+	}
 	var buf bytes.Buffer
 	if err := format.Node(&buf, fset, f); err != nil {
 		return nil, err
@@ -256,4 +278,61 @@ func rewriteGo(f *ast.File, goFunc string) {
 		}
 		return true
 	})
+}
+
+func exprString(fset *token.FileSet, e ast.Expr) string {
+	var b bytes.Buffer
+	_ = format.Node(&b, fset, e)
+	return b.String()
+}
+
+func parseExpr(s string) ast.Expr {
+	e, err := parser.ParseExpr(s)
+	if err != nil {
+		die("bad expression %q: %v", s, err)
+	}
+	return e
+}
+
+// rewriteRangeMap rewrites every `for k, v := range <expr>` (k, v defined with :=).
+func rewriteRangeMap(fset *token.FileSet, f *ast.File, expr, fn, arg string, perFunc map[string]string) int {
+	n := 0
+	for _, d := range f.Decls {
+		fd, ok := d.(*ast.FuncDecl)
+		if !ok || fd.Body == nil {
+			continue
+		}
+		use := fn
+		if o, ok := perFunc[fd.Name.Name]; ok {
+			use = o
+		}
+		ast.Inspect(fd.Body, func(nd ast.Node) bool {
+			rs, ok := nd.(*ast.RangeStmt)
+			if !ok || rs.Tok != token.DEFINE || exprString(fset, rs.X) != expr {
+				return true
+			}
+			keyID, _ := rs.Key.(*ast.Ident)
+			if keyID == nil {
+				return true
+			}
+			key := keyID
+			if key.Name == "_" {
+				key = ast.NewIdent(fmt.Sprintf("verifKey%d", n))
+			}
+			var pre []ast.Stmt
+			if v, ok := rs.Value.(*ast.Ident); ok && v != nil && v.Name != "_" {
+				pre = append(pre, &ast.AssignStmt{
+					Lhs: []ast.Expr{ast.NewIdent(v.Name)}, Tok: token.DEFINE,
+					Rhs: []ast.Expr{&ast.IndexExpr{X: parseExpr(expr), Index: ast.NewIdent(key.Name)}},
+				})
+			}
+			rs.Key = ast.NewIdent("_")
+			rs.Value = ast.NewIdent(key.Name)
+			rs.X = &ast.CallExpr{Fun: parseExpr(use), Args: []ast.Expr{parseExpr(arg)}}
+			rs.Body.List = append(pre, rs.Body.List...)
+			n++
+			return true
+		})
+	}
+	return n
 }
